@@ -40,8 +40,10 @@ KIND_OF = {
 }
 
 
-def monitor(events, completed):
-    """independent protocol monitor; returns None or a description of the violation"""
+def monitor(events, completed, declined=()):
+    """independent protocol monitor; returns None or a description of the violation.
+    `declined`: names of blocks whose start callback returned False: such a block is closed
+    for the visitor at once (nothing carrying its state, no end callback)"""
     if not events:
         return "no callback at all"
     if events[0]["cb"] != "on_parse_start":
@@ -58,6 +60,8 @@ def monitor(events, completed):
         elif cb.endswith("_start"):
             if not stack or ev["parent"] != stack[-1]:
                 return "callback %d %s: parent %s is not the innermost open state %s" % (i, cb, ev["parent"], stack[-1:] )
+            if ev.get("_name") in declined:
+                continue  # declined: never open for this visitor
             stack.append(ev["state"])
         elif cb.endswith("_end"):
             if not stack or stack[-1] != ev["state"]:
@@ -69,6 +73,17 @@ def monitor(events, completed):
             if not stack or stack[-1] != ev["state"]:
                 return "callback %d %s carries state %s, innermost open is %s" % (i, cb, ev["state"], stack[-1:])
     return None
+
+
+def block_name_of(ev):
+    """the name impl.Recorder uses to decide whether a block is declined (see impl.block_name)"""
+    h = ev["hdr"]
+    if ev["kind"] == "ns":
+        return "::".join(h["namespace"]["names"])
+    if ev["kind"] == "ext":
+        return h["linkage"]
+    seg = h["class_decl"]["typename"]["segments"][-1]
+    return seg.get("name") or "<anon>"
 
 
 LIST_OF_CB = {
@@ -170,6 +185,19 @@ def run(ctx):
         bad = monitor(evs, r["result"]["k"] == "ok")
         if bad:
             mfails.append({"input": t, "diff": bad})
+        # the same protocol for a visitor that declines some blocks (returns False from their start callback)
+        starts = [e for e in r["events"] if e["cb"].endswith("_start") and e["cb"] != "on_parse_start"]
+        if starts and r["result"]["k"] == "ok" and rng.random() < 0.5:
+            names = sorted(set(block_name_of(e) for e in starts))
+            dec = set(rng.sample(names, rng.randint(1, min(2, len(names)))))
+            rd = impl.impl_parse(t, "f.h", skip=dec)
+            evd = canon.renumber(rd["events"])
+            for e in evd:
+                if e["cb"].endswith("_start") and e["cb"] != "on_parse_start":
+                    e["_name"] = block_name_of(e)
+            bad = monitor(evd, rd["result"]["k"] == "ok", declined=dec)
+            if bad:
+                mfails.append({"input": t, "declined": sorted(dec), "diff": "with a visitor declining %s: %s" % (sorted(dec), bad)})
         # fold: parse_string result equals the inner SimpleCxxVisitor's data driven by the same stream
         if r["result"]["k"] == "ok":
             try:
